@@ -37,9 +37,9 @@ def tasks(tier):
 
 def t_equilibrium():
     """the starting densities are theta0 times a function that does not involve theta0, at EVERY grid point including the two ends (closed forms of
-    phi_1D_snm and phi_1D_genic, contracts of C01): linearity in theta0 of everything computed from them starts here"""
+    phi_1D_snm, phi_1D_genic and the general-dominance phi_1D, contracts of C01): linearity in theta0 of everything computed from them starts here"""
     from contracts import py_wiring as W
-    rs = W.c01_phi_1D_snm() + W.c01_phi_1D_genic()
+    rs = W.c01_phi_1D_snm() + W.c01_phi_1D_genic() + W.c01_phi_1D_general_h()
     for r in rs:
         r['id'] = r['id'].replace('C01/', 'C03/', 1)
         if r.get('finding_key'):
